@@ -199,8 +199,24 @@ impl<const P: u32, const RED: bool> StarkField for Toy<P, RED> {
 
 impl<const P: u32, const RED: bool> Randomizable for Toy<P, RED> {
     const VALUE_SIZE: usize = 4;
+    /// Only the low 16 bits of the 4 random bytes are used (a canonical 4-byte value below P would
+    /// almost never occur): for P >= 2^15 (40961) by rejection sampling — 37.5 % of the draws are
+    /// rejected, which exercises the random coin's retry loop — and for the smaller moduli by
+    /// reduction modulo P (every draw succeeds).
     fn from_random_bytes(bytes: &[u8]) -> Option<Self> {
-        Self::try_from(bytes).ok()
+        if bytes.len() < 4 {
+            return None;
+        }
+        let v = u16::from_le_bytes([bytes[0], bytes[1]]) as u32;
+        if P >= (1 << 15) {
+            if v < P {
+                Some(Self::store(v))
+            } else {
+                None
+            }
+        } else {
+            Some(Self::store(v % P))
+        }
     }
 }
 
